@@ -113,13 +113,31 @@ Qed.
 Lemma finalized_has_initpop m m' : finalize m = Ok m' -> m_initpop m' <> None.
 Proof. apply finalized_has_initpop0. Qed.
 
+Lemma solver_eqb_eq a b : solver_eqb a b = true <-> a = b.
+Proof. destruct a, b; cbn; split; intro H; try reflexivity; try discriminate. Qed.
+
+(* the runner model.run reuses: the cached one, when it was built for the solver asked for *)
+Definition cached_runner (a : api O) (s : solver) (rb : bool) : option runner :=
+  if rb then None else
+  match a_runner a with
+  | Some r => if solver_eqb (r_solver r) s then Some r else None
+  | None => None
+  end.
+
+Lemma cached_runner_some a s rb r : cached_runner a s rb = Some r -> a_runner a = Some r /\ r_solver r = s.
+Proof.
+  unfold cached_runner. destruct rb; [discriminate|]. destruct (a_runner a) as [r0|]; [|discriminate].
+  destruct (solver_eqb (r_solver r0) s) eqn:E; [|discriminate]. intro H. inversion H; subst. split; [reflexivity|].
+  apply solver_eqb_eq. exact E.
+Qed.
+
 Lemma step_inv m0 s d a c : Inv m0 s d a -> uses_solver s [c] ->
   Inv m0 s (current_defaults d [c]) (fst (step O a c)).
 Proof.
   intros (Hd & Hdef & Hr) Hs. destruct c as [p s' rb | p dyn s' | k p | d']; cbn [current_defaults].
   - cbn in Hs. destruct Hs as [-> _]. cbn [step].
-    destruct (if rb then None else a_runner a) as [r|] eqn:Ec.
-    + assert (Har : a_runner a = Some r) by (destruct rb; [discriminate|exact Ec]).
+    fold (cached_runner a s rb). destruct (cached_runner a s rb) as [r|] eqn:Ec.
+    + assert (Har : a_runner a = Some r) by (apply (cached_runner_some a s rb r Ec)).
       unfold Inv; cbn [fst a_model a_runner a_handles a_last]. split; [exact Hd|]. split; [exact Hdef|]. intros r' Hr'. inversion Hr'; subst. apply Hr; exact Har.
     + destruct (get_runner (a_model a) p None s) as [[m' r]|w] eqn:Eg; unfold Inv; cbn [fst a_model a_runner a_handles a_last].
       * destruct (get_runner_spec _ _ _ _ _ _ Eg) as (Hf & Hm & Hso & Hdy & Hde & _).
@@ -173,8 +191,8 @@ Lemma run_in_inv m0 s d a p rb : Inv m0 s d a ->
   snd (step O a (CRun p s rb)) = Some (pure_run O (a_model a) s p).
 Proof.
   intros (Hd & Hdef & Hr). cbn [step].
-  destruct (if rb then None else a_runner a) as [r|] eqn:Ec.
-  - assert (Har : a_runner a = Some r) by (destruct rb; [discriminate|exact Ec]).
+  fold (cached_runner a s rb). destruct (cached_runner a s rb) as [r|] eqn:Ec.
+  - assert (Har : a_runner a = Some r) by (apply (cached_runner_some a s rb r Ec)).
     destruct (Hr r Har) as (H1 & H2 & H3 & H4 & H5 & H6). cbn [snd]. f_equal.
     unfold pure_run. rewrite (finalize_idempotent _ H2 H3). cbn [bind].
     apply runner_run_all_dynamic; cbn; congruence.
@@ -192,6 +210,88 @@ Proof.
   intros Hs a.
   pose proof (steps_inv m s cs _ _ (init_inv m s) Hs) as Hi. fold a in Hi.
   rewrite (run_in_inv _ _ _ _ _ _ Hi). f_equal.
+  destruct Hi as (Hd & Hdef & _). unfold pure_run.
+  rewrite (finalize_same (a_model a) (with_defaults_model m (current_defaults (m_defaults m) cs))).
+  - reflexivity.
+  - unfold same_definition in *.
+    repeat match goal with H : _ /\ _ |- _ => destruct H as [? H] end.
+    cbn. repeat split; congruence.
+  - cbn. exact Hdef.
+Qed.
+
+(* ---------------------------------------------------------------- histories that switch solver *)
+(* the same invariant without the solver: model.run asks for a solver at every call, and reuses the cached runner only
+   if it was built for that solver *)
+Definition Inv2 (m0 : model) (d : params) (a : api O) : Prop :=
+  same_definition m0 (a_model a) /\ m_defaults (a_model a) = d /\
+  (forall r, a_runner a = Some r ->
+     r_model r = a_model a /\ m_finalized (a_model a) = true /\ m_initpop (a_model a) <> None /\
+     r_dyn r = None /\ r_defaults r = d).
+
+Lemma step_inv2 m0 d a c : Inv2 m0 d a -> Inv2 m0 (current_defaults d [c]) (fst (step O a c)).
+Proof.
+  intros (Hd & Hdef & Hr). destruct c as [p s' rb | p dyn s' | k p | d']; cbn [current_defaults].
+  - cbn [step]. fold (cached_runner a s' rb). destruct (cached_runner a s' rb) as [r|] eqn:Ec.
+    + assert (Har : a_runner a = Some r) by (apply (cached_runner_some a s' rb r Ec)).
+      unfold Inv2; cbn [fst a_model a_runner a_handles a_last]. split; [exact Hd|]. split; [exact Hdef|].
+      intros r' Hr'. inversion Hr'; subst. apply Hr; exact Har.
+    + destruct (get_runner (a_model a) p None s') as [[m' r]|w] eqn:Eg; unfold Inv2; cbn [fst a_model a_runner a_handles a_last].
+      * destruct (get_runner_spec _ _ _ _ _ _ Eg) as (Hf & Hm & Hso & Hdy & Hde & _).
+        destruct (finalize_definition _ _ Hf) as (Hsd & Hdd & Hfin).
+        split; [eapply same_definition_trans; eassumption|]. split; [congruence|].
+        intros r' Hr'. inversion Hr'; subst r'.
+        split; [exact Hm|]. split; [exact Hfin|]. split; [eapply finalized_has_initpop; exact Hf|].
+        split; [exact Hdy|]. congruence.
+      * split; [exact Hd|]. split; [exact Hdef|]. intros r' Hr'. discriminate.
+  - cbn [step]. destruct (get_runner (a_model a) p dyn s') as [[m' r]|w] eqn:Eg; unfold Inv2; cbn [fst a_model a_runner a_handles a_last].
+    + destruct (get_runner_spec _ _ _ _ _ _ Eg) as (Hf & _).
+      destruct (finalize_definition _ _ Hf) as (Hsd & Hdd & Hfin).
+      split; [eapply same_definition_trans; eassumption|]. split; [congruence|].
+      intros r' Hr'. destruct (Hr r' Hr') as (H1 & H2 & H3 & H4 & H5).
+      assert (m' = a_model a) as ->.
+      { rewrite (finalize_idempotent _ H2 H3) in Hf. inversion Hf; reflexivity. }
+      repeat split; assumption.
+    + split; [exact Hd|]. split; [exact Hdef|]. exact Hr.
+  - cbn [step]. destruct (nth_error (a_handles a) k); unfold Inv2; cbn [fst a_model a_runner a_handles a_last]; (split; [exact Hd|]; split; [exact Hdef|]; exact Hr).
+  - unfold Inv2; cbn [step fst a_model a_runner a_handles a_last]. split; [eapply same_definition_trans; [exact Hd|apply with_defaults_same]|]. split; [reflexivity|].
+    intros r' Hr'. discriminate.
+Qed.
+
+Lemma steps_inv2 m0 cs : forall d a, Inv2 m0 d a -> Inv2 m0 (current_defaults d cs) (fst (steps O a cs)).
+Proof.
+  induction cs as [|c cs IH]; intros d a Hi; cbn [steps]; [exact Hi|].
+  pose proof (step_inv2 m0 d a c Hi) as Hi'.
+  destruct (step O a c) as [a' o] eqn:Es. cbn [fst] in Hi'.
+  specialize (IH _ a' Hi').
+  destruct (steps O a' cs) as [a'' os]. cbn [fst] in *.
+  rewrite current_defaults_cons. exact IH.
+Qed.
+
+Lemma init_inv2 m : Inv2 m (m_defaults m) (init_api O m).
+Proof. split; [apply same_definition_refl|]. split; [reflexivity|]. intros r Hr; discriminate. Qed.
+
+Lemma run_in_inv2 m0 d a p s rb : Inv2 m0 d a ->
+  snd (step O a (CRun p s rb)) = Some (pure_run O (a_model a) s p).
+Proof.
+  intros (Hd & Hdef & Hr). cbn [step].
+  fold (cached_runner a s rb). destruct (cached_runner a s rb) as [r|] eqn:Ec.
+  - destruct (cached_runner_some a s rb r Ec) as [Har Hso].
+    destruct (Hr r Har) as (H1 & H2 & H3 & H4 & H5). cbn [snd]. f_equal.
+    unfold pure_run. rewrite (finalize_idempotent _ H2 H3). cbn [bind].
+    apply runner_run_all_dynamic; cbn; congruence.
+  - unfold pure_run, get_runner. destruct (finalize (a_model a)) as [m'|w]; cbn; reflexivity.
+Qed.
+
+(* after ANY history - runs with any solvers, rebuilt or not, runners built and run, defaults replaced - model.run(p) with
+   solver s returns what a fresh object with the same definition and the current default parameters returns for s *)
+Theorem run_history_independent_any_solver (m : model) (cs : list call) (p : params) (s : solver) (rb : bool) :
+  let a := fst (steps O (init_api O m) cs) in
+  snd (step O a (CRun p s rb)) =
+    Some (pure_run O (with_defaults_model m (current_defaults (m_defaults m) cs)) s p).
+Proof.
+  intro a.
+  pose proof (steps_inv2 m cs _ _ (init_inv2 m)) as Hi. fold a in Hi.
+  rewrite (run_in_inv2 _ _ _ _ _ _ Hi). f_equal.
   destruct Hi as (Hd & Hdef & _). unfold pure_run.
   rewrite (finalize_same (a_model a) (with_defaults_model m (current_defaults (m_defaults m) cs))).
   - reflexivity.
@@ -228,7 +328,7 @@ Lemma step_handles a c k r : nth_error (a_handles a) k = Some r ->
   nth_error (a_handles (fst (step O a c))) k = Some r.
 Proof.
   intro H. destruct c as [p s' rb | p dyn s' | k' p | d']; cbn [step].
-  - destruct (if rb then None else a_runner a); [exact H|].
+  - fold (cached_runner a s' rb). destruct (cached_runner a s' rb); [exact H|].
     destruct (get_runner (a_model a) p None s') as [[m' r']|w]; exact H.
   - destruct (get_runner (a_model a) p dyn s') as [[m' r']|w]; cbn; [|exact H].
     rewrite nth_error_app1; [exact H|]. apply nth_error_Some. congruence.
